@@ -146,10 +146,6 @@ def run(ctx):
     s = U.analyze(gb.id, frozenset())
     R.ob(not s, "U-RETURN", gb.where(), "U-RETURN|generate_block", "generate_block builds the block from an unsorted scan (%s)" % sorted(s),
          sample={"rule": "UNORD", "fn": "generate_block", "sorted_before_use": True})
-    srt = [c for c in gb.calls() if (c.method or "").startswith("sort") and not gb.is_cleanup(c.bb)]
-    mk = [c for c in gb.calls() if (c.method or "") == "from_leaves" and not gb.is_cleanup(c.bb)]
-    R.ob(bool(srt) and bool(mk) and all(gb.dominates(srt[0].bb, m.bb) for m in mk), "DOM-before", gb.where(), "DOM-before|generate_block|sort<merkle",
-         "the transaction list is not sorted by (block,index) before the Merkle tree is built")
     for ev in U.events:
         if ev["kind"] == "U-STORE":
             R.violation("U-STORE", ev["where"], "U-STORE|%s|%s" % (ev["fn"], ev["site"].split("@")[0].split("::")[-1]),
